@@ -338,7 +338,8 @@ Fixpoint find (fuel : nat) (root : tree) (xs : list pstr) (par : pref) (parv : t
                 | None => Unmodelled
                 | Some child =>
                   match rest with
-                  | [] => Ok (root, false, mkF npar nparv (Some (br (dec_of_Z z))) (Some child) fstr None)
+                  | [] => (* since the "fix:" commit 2fc3539 the found path of an element ends with its index *)
+                    Ok (root, false, mkF npar nparv (Some (br (dec_of_Z z))) (Some child) (fstr ++ br (dec_of_Z z)) None)
                   | _ => self_find root rest (child_idx npar i) child (fstr ++ br (dec_of_Z z))
                   end
                 end
